@@ -229,6 +229,83 @@ func runC11(w *World, r *Report) {
 			r.check(listOK, "forward-after-accept", row.handler+"/list-from-set", lineOf(w, fw.c), "the outgoing gossiper list is the verified set plus self", "list not rebuilt from the set before forwarding")
 		}
 	}
+	// every way out of a gossip handler is one of the protocol's own decisions: malformed message, a failed step, item seen,
+	// node already listed — or comes after the item was processed. A refusal that depends on anything else (the wall clock,
+	// the size of the peer table, …) loses the item for this node and everything behind it.
+	r.rule("exits-accounted", "GossipVrx / GossipTrx return without processing only on: a nil / ill-shaped message, the failure of a called step, HasHash == true, or self ∈ verified set", 2)
+	for _, row := range gossipRows {
+		f := w.fx(r, "gossip", "gossiper", row.handler)
+		if f == nil {
+			continue
+		}
+		fn := f.fn
+		row = row.bound(fn)
+		msg := row.msg
+		known := map[Edge]bool{}
+		for _, b := range fn.Blocks {
+			for i := range b.Succs {
+				e := Edge{b, i}
+				for _, ft := range edgeFacts(e) {
+					switch ft.kind {
+					case fNotNil:
+						if ft.x != nil && isErrorType(ft.x.Type()) {
+							known[e] = true // a step failed
+						}
+					case fIsNil:
+						if ft.x != nil && strings.HasPrefix(pathOf(ft.x), msg) {
+							known[e] = true // absent message / sub-message
+						}
+					case fTrue, fFalse:
+						if c, ok := strip(ft.x).(*ssa.Call); ok {
+							if h := samePkgHelper(fn, c); h != nil && isShapePredicate(h) {
+								known[e] = true // shape predicate on the message
+							}
+						}
+					}
+				}
+				if iff, ok := b.Instrs[len(b.Instrs)-1].(*ssa.If); ok {
+					for _, lf := range lenFactsOf(iff.Cond, i != 0) {
+						if strings.HasPrefix(lf.path, msg) {
+							known[e] = true // wrong length of a message field
+						}
+					}
+				}
+			}
+		}
+		for _, e := range deepEdges(fn, idRes, callSpec(").HasHash", "true", nil), deepDepth) {
+			known[e] = true
+		}
+		if set, _ := verifiedSet(fn, row); set != nil {
+			for _, e := range lookupEdges(fn, set, isSelfAddressCall, true) {
+				known[e] = true
+			}
+		}
+		unaccounted := 0
+		var where ssa.Instruction
+		walkFrom(nil, fn.Blocks[0], known, func(x ssa.Instruction) bool {
+			if c, ok := x.(ssa.CallInstruction); ok {
+				n := calleeName(c)
+				if strings.HasSuffix(n, "."+row.forward) || strings.HasSuffix(n, ".sendToAccountant") || strings.HasSuffix(n, ").SaveAwaitedTransaction") {
+					return true // processing started: later exits are results of the processing
+				}
+				if h := samePkgHelper(fn, c); h != nil && len(deepCalls(h, bySuffix("."+row.forward), 1)) > 0 {
+					return true
+				}
+			}
+			if _, ok := x.(*ssa.Return); ok {
+				unaccounted++
+				where = x
+				return true
+			}
+			return false
+		})
+		at := w.Pos(fn.Pos())
+		if where != nil {
+			at = lineOf(w, where)
+		}
+		r.check(unaccounted == 0, "exits-accounted", row.handler, at, "the handler refuses an item only for one of the protocol's reasons", fmt.Sprintf("%d returns are reachable before any processing without crossing a known rejection (malformed, step failed, seen, listed)", unaccounted))
+	}
+
 	// sendToAccountant summary
 	if f := w.fx(r, "gossip", "gossiper", "sendToAccountant"); f != nil {
 		add := callEdges(f.fn, ").AddLeaf", "errnil", nil)
